@@ -2,5 +2,10 @@
 //! abstract schema / value model, ASN.1 printer, reference UPER codec (X.691), protobuf wire
 //! decoder. See /verif/DESIGN.md.
 pub mod bitmodel;
+pub mod gen;
 pub mod harness;
+pub mod print;
+pub mod refcodec;
 pub mod refper;
+pub mod schema;
+pub mod zoo;
